@@ -154,6 +154,11 @@ func (g *serverGroup) validate() (err error) {
 func (srvGrps serverGroups) collectSessTicketPaths() (paths []string) {
 	set := container.NewSortedSliceSet[string]()
 	for _, g := range srvGrps {
+		if g.TLS == nil {
+			// The tls object is optional for groups without encrypted servers.
+			continue
+		}
+
 		for _, k := range g.TLS.SessionKeys {
 			set.Add(k)
 		}
